@@ -138,6 +138,184 @@ theorem Fs.find_unlink (fs : Fs) (id id' : Nat) :
       if f.id == id then { f with linked := false } else f) :=
   Fs.find_updateP fs id id' _ (fun _ => rfl)
 
+theorem Fs.find_sync (fs : Fs) (id id' : Nat) :
+    Fs.find (Fs.sync fs id) id' = (Fs.find fs id').map (fun f =>
+      if f.id == id then { f with durable := f.data.length } else f) :=
+  Fs.find_updateP fs id id' _ (fun _ => rfl)
+
+/-- `sync` changes no file's bytes. -/
+theorem Fs.find_sync_data {fs : Fs} {id id' : Nat} {f' : File}
+    (h : Fs.find (Fs.sync fs id) id' = some f') :
+    ∃ f, Fs.find fs id' = some f ∧ f'.data = f.data ∧ f'.id = f.id ∧ f'.linked = f.linked := by
+  rw [Fs.find_sync] at h
+  cases hf : Fs.find fs id' with
+  | none => rw [hf] at h; cases h
+  | some f =>
+    rw [hf] at h
+    simp only [Option.map_some, Option.some.injEq] at h
+    refine ⟨f, rfl, ?_⟩
+    by_cases hid : (f.id == id) = true
+    · rw [if_pos hid] at h; subst h; exact ⟨rfl, rfl, rfl⟩
+    · rw [if_neg hid] at h; subst h; exact ⟨rfl, rfl, rfl⟩
+
+/-- `fs` after one `sync` per id in `ids` (what `open` does to the chunk files it keeps). -/
+def Fs.syncAll (fs : Fs) (ids : List Nat) : Fs := ids.foldl Fs.sync fs
+
+/-- The events of those syncs. -/
+def syncEvs (ids : List Nat) : List Ev := ids.map (fun id => Ev.sync "o" id true)
+
+/-- An event of `open` syncing a kept chunk. -/
+def Ev.IsOpenSync (e : Ev) : Prop := ∃ id, e = Ev.sync "o" id true
+
+theorem syncEvs_isOpenSync (ids : List Nat) : ∀ e ∈ syncEvs ids, e.IsOpenSync := by
+  intro e he
+  obtain ⟨id, _, rfl⟩ := List.mem_map.mp he
+  exact ⟨id, rfl⟩
+
+@[simp] theorem Fs.syncAll_nil (fs : Fs) : fs.syncAll [] = fs := rfl
+theorem Fs.syncAll_cons (fs : Fs) (id : Nat) (ids : List Nat) :
+    fs.syncAll (id :: ids) = (fs.sync id).syncAll ids := rfl
+@[simp] theorem syncEvs_nil : syncEvs [] = [] := rfl
+theorem syncEvs_cons (id : Nat) (ids : List Nat) :
+    syncEvs (id :: ids) = Ev.sync "o" id true :: syncEvs ids := rfl
+theorem syncEvs_append (xs ys : List Nat) : syncEvs (xs ++ ys) = syncEvs xs ++ syncEvs ys := by
+  simp [syncEvs]
+theorem Fs.syncAll_append (fs : Fs) (xs ys : List Nat) :
+    fs.syncAll (xs ++ ys) = (fs.syncAll xs).syncAll ys := by
+  simp [Fs.syncAll, List.foldl_append]
+
+/-- `syncAll` as one map: files whose id is in `ids` become durable up to their length. -/
+theorem Fs.syncAll_eq_map (fs : Fs) (ids : List Nat) :
+    fs.syncAll ids = List.map (fun f => if ids.contains f.id then
+      ({ f with durable := f.data.length } : File) else f) fs := by
+  induction ids generalizing fs with
+  | nil => simp [Fs.syncAll]
+  | cons id ids ih =>
+    rw [Fs.syncAll_cons, ih]
+    simp only [Fs.sync, Fs.update, List.map_map]
+    apply List.map_congr_left
+    intro f _
+    simp only [Function.comp]
+    by_cases h1 : f.id = id
+    · by_cases h2 : ids.contains f.id = true <;> simp [h1, h2] <;> simp [← h1, h2]
+    · by_cases h2 : ids.contains f.id = true <;> simp [h1, h2]
+
+/-- Syncing files that are already durable changes nothing. -/
+theorem Fs.syncAll_eq_self {fs : Fs} {ids : List Nat}
+    (h : ∀ f ∈ fs, f.id ∈ ids → f.durable = f.data.length) : fs.syncAll ids = fs := by
+  rw [Fs.syncAll_eq_map]
+  conv => rhs; rw [← List.map_id fs]
+  apply List.map_congr_left
+  intro f hf
+  by_cases h2 : ids.contains f.id = true
+  · have := h f hf (by simpa using h2)
+    rw [if_pos h2, ← this]; rfl
+  · rw [if_neg h2]; rfl
+
+theorem Fs.find_syncAll (fs : Fs) (ids : List Nat) (id' : Nat) :
+    Fs.find (fs.syncAll ids) id' = (Fs.find fs id').map (fun f =>
+      if ids.contains f.id then ({ f with durable := f.data.length } : File) else f) := by
+  rw [Fs.syncAll_eq_map]
+  unfold Fs.find
+  induction fs with
+  | nil => rfl
+  | cons x xs ih =>
+    simp only [List.map_cons, List.find?_cons]
+    have : ((if ids.contains x.id then ({ x with durable := x.data.length } : File) else x).id == id')
+        = (x.id == id') := by split <;> rfl
+    rw [this]
+    cases x.id == id'
+    · exact ih
+    · rfl
+
+theorem Fs.find_sync_some {fs : Fs} {id' : Nat} {f : File} (id : Nat)
+    (h : Fs.find fs id' = some f) :
+    ∃ f', Fs.find (Fs.sync fs id) id' = some f' ∧ f'.data = f.data ∧ f'.id = f.id ∧
+      f'.linked = f.linked := by
+  rw [Fs.find_sync, h]
+  by_cases hid : (f.id == id) = true
+  · refine ⟨{ f with durable := f.data.length }, ?_, rfl, rfl, rfl⟩
+    simp only [Option.map_some, if_pos hid]
+  · refine ⟨f, ?_, rfl, rfl, rfl⟩
+    simp only [Option.map_some, if_neg hid]
+
+theorem Fs.has_sync (fs : Fs) (id n : Nat) : (Fs.sync fs id).has n = fs.has n := by
+  unfold Fs.has
+  rw [Fs.find_sync]
+  cases fs.find n with
+  | none => rfl
+  | some f => by_cases h : f.id = id <;> simp [h]
+
+theorem Fs.has_syncAll (fs : Fs) (ids : List Nat) (n : Nat) : (fs.syncAll ids).has n = fs.has n := by
+  induction ids generalizing fs with
+  | nil => rfl
+  | cons id ids ih => rw [Fs.syncAll_cons, ih, Fs.has_sync]
+
+theorem Fs.find_syncAll_some {fs : Fs} {id' : Nat} {f : File} (ids : List Nat)
+    (h : Fs.find fs id' = some f) :
+    ∃ f', Fs.find (fs.syncAll ids) id' = some f' ∧ f'.data = f.data ∧ f'.id = f.id ∧
+      f'.linked = f.linked := by
+  rw [Fs.find_syncAll, h]
+  by_cases hc : ids.contains f.id = true
+  · exact ⟨{ f with durable := f.data.length }, by simp only [Option.map_some, if_pos hc],
+      rfl, rfl, rfl⟩
+  · exact ⟨f, by simp only [Option.map_some, if_neg hc], rfl, rfl, rfl⟩
+
+theorem Fs.linkedIds_update (fs : Fs) (id : Nat) (g : File → File) (hg : ∀ f, (g f).id = f.id)
+    (hl : ∀ f, (g f).linked = f.linked) : (Fs.update fs id g).linkedIds = fs.linkedIds := by
+  unfold Fs.linkedIds Fs.update
+  have hf : List.filter (fun f => f.linked) (List.map (fun f => if f.id == id then g f else f) fs)
+      = List.map (fun f => if f.id == id then g f else f) (List.filter (fun f => f.linked) fs) := by
+    rw [List.filter_map]
+    congr 1
+    apply List.filter_congr
+    intro f _
+    simp only [Function.comp]
+    split
+    · exact hl f
+    · rfl
+  rw [hf, List.foldl_map]
+  congr 1
+  funext acc f
+  split
+  · rw [hg]
+  · rfl
+
+theorem Fs.linkedIds_sync (fs : Fs) (id : Nat) : (Fs.sync fs id).linkedIds = fs.linkedIds :=
+  Fs.linkedIds_update fs id _ (fun _ => rfl) (fun _ => rfl)
+
+theorem Fs.linkedIds_syncAll (fs : Fs) (ids : List Nat) : (fs.syncAll ids).linkedIds = fs.linkedIds := by
+  induction ids generalizing fs with
+  | nil => rfl
+  | cons id ids ih => rw [Fs.syncAll_cons, ih, Fs.linkedIds_sync]
+
+/-- Every file is durable up to its length (e.g. a crash image). -/
+def AllDurable (fs : Fs) : Prop := ∀ g ∈ fs, g.durable = g.data.length
+
+theorem AllDurable.sync_eq {fs : Fs} (h : AllDurable fs) (id : Nat) : Fs.sync fs id = fs := by
+  have := Fs.syncAll_eq_self (fs := fs) (ids := [id]) (fun f hf _ => h f hf)
+  exact this
+
+theorem AllDurable.syncAll_eq {fs : Fs} (h : AllDurable fs) (ids : List Nat) :
+    fs.syncAll ids = fs :=
+  Fs.syncAll_eq_self (fun f hf _ => h f hf)
+
+theorem AllDurable.truncate {fs : Fs} (h : AllDurable fs) (id len : Nat) :
+    AllDurable (Fs.truncate fs id len) := by
+  intro g hg
+  unfold Fs.truncate Fs.update at hg
+  obtain ⟨f0, h0, e⟩ := List.mem_map.mp hg
+  have := h f0 h0
+  split at e
+  · subst e
+    simp only [List.length_take, this]
+    omega
+  · subst e; exact this
+
+/-- The accumulator after the kept chunk `id` was synced. -/
+def OpenAcc.synced (a : OpenAcc) (id : Nat) : OpenAcc :=
+  { a with fs := a.fs.sync id, evs := a.evs ++ [Ev.sync "o" id true] }
+
 /-! ## One step of `openLoop` -/
 
 def OpenAcc.pre (a : OpenAcc) : OpenAcc :=
@@ -167,9 +345,10 @@ def openTail (cfg : Cfg) (id : Nat) (rest : List Nat) (oc : OpenedChunk) (a1 : O
       (.ok a2, a2)
     else
       let sm3 := { sm2 with closed := sm2.closed ++ [⟨oc.offsets, sm2.st⟩] }
-      openLoop cfg rest { a1 with sm := sm3, prevEnd := some (lastOff oc.offsets),
-                                  lastLogId := sm2.st.last,
-                                  lastTruncated := oc.truncatedTo.isSome }
+      let a1s : OpenAcc := { a1 with fs := a1.fs.sync id, evs := a1.evs ++ [Ev.sync "o" id true] }
+      openLoop cfg rest { a1s with sm := sm3, prevEnd := some (lastOff oc.offsets),
+                                   lastLogId := sm2.st.last,
+                                   lastTruncated := oc.truncatedTo.isSome }
 
 theorem openLoop_gap (cfg : Cfg) (id : Nat) (rest : List Nat) (a : OpenAcc)
     (h : gapCheck a id = true) : openLoop cfg (id :: rest) a = (.err .gap, a.pre) := by
@@ -299,7 +478,10 @@ theorem openLoop_no_panic (cfg : Cfg) (ids : List Nat) (a : OpenAcc) (hs : StSma
             · intro h; cases h
             · apply ih
               · exact hok sm2 hrep
-              · exact hfs1
+              · intro id' hid' f' hf'
+                obtain ⟨f0, hf0, hd0, _⟩ := Fs.find_sync_data hf'
+                rw [hd0]
+                exact hfs1 id' hid' f0 hf0
 
 theorem openStore_no_panic (cfg : Cfg) (fs : Fs) (h : FsSmall fs) :
     ∀ m, (openStore cfg fs).1 ≠ .panic m := by
@@ -515,7 +697,7 @@ theorem find_create_write (fs : Fs) (id : Nat) (head : Bytes) :
 /-- The accumulator after chunk `id` with records `rs` was loaded without
 truncation and replayed to `sm2`. -/
 def OpenAcc.loaded (a : OpenAcc) (id : Nat) (rs : List Record) (sm2 : Store) : OpenAcc :=
-  { a.pre with
+  { a.pre.synced id with
     sm := { sm2 with closed := sm2.closed ++ [⟨offsetsFrom id (sizes rs), sm2.st⟩] },
     prevEnd := some (lastOff (offsetsFrom id (sizes rs))),
     lastLogId := sm2.st.last,
@@ -568,11 +750,15 @@ theorem Loads.openLoop_append {cfg : Cfg} {ids : List Nat} {a a' : OpenAcc}
   | cons hg hf hd hwf hne hr _ ih =>
     rw [List.cons_append, openLoop_clean_step _ hg hf hd hwf (Or.inl hne) hr, ih]
 
+/-- D15: loading undamaged chunks syncs each of them once (old: `a'.fs = a.fs ∧ a'.evs = a.evs`). -/
 theorem Loads.fs_evs {cfg : Cfg} {ids : List Nat} {a a' : OpenAcc} (h : Loads cfg ids a a') :
-    a'.fs = a.fs ∧ a'.evs = a.evs := by
+    a'.fs = a.fs.syncAll ids ∧ a'.evs = a.evs ++ syncEvs ids := by
   induction h with
-  | nil a => exact ⟨rfl, rfl⟩
-  | cons _ _ _ _ _ _ _ ih => exact ih
+  | nil a => exact ⟨rfl, (List.append_nil _).symm⟩
+  | cons _ _ _ _ _ _ _ ih =>
+    rw [ih.1, ih.2, Fs.syncAll_cons, syncEvs_cons]
+    refine ⟨rfl, ?_⟩
+    simp only [OpenAcc.loaded, OpenAcc.synced, OpenAcc.pre, List.append_assoc, List.singleton_append]
 
 /-! ## A damaged tail on the newest chunk -/
 
@@ -596,7 +782,7 @@ theorem openChunk_torn {cfg : Cfg} (ht : cfg.truncate = true) {rs : List Record}
 /-- The accumulator after the newest chunk `id` was cut back to its complete
 records `rs` and replayed to `sm2`. -/
 def OpenAcc.loadedTrunc (a : OpenAcc) (id : Nat) (rs : List Record) (sm2 : Store) : OpenAcc :=
-  { a.pre.afterTrunc id (some (encAll rs).length) with
+  { (a.pre.afterTrunc id (some (encAll rs).length)).synced id with
     sm := { sm2 with closed := sm2.closed ++ [⟨offsetsFrom id (sizes rs), sm2.st⟩] },
     prevEnd := some (lastOff (offsetsFrom id (sizes rs))),
     lastLogId := sm2.st.last,
